@@ -410,18 +410,19 @@ package node
 //@ func parseUrlPath(pathStr string, m meta.Definition) ([]*Path, error)
 //@   mode int
 //@   property C13 C08
-//@   requires m != nil
-//@   requires forall q *meta.List :: q != nil ==> (forall k int :: 0 <= k && k < len(q.keyMeta) ==> q.keyMeta[k] != nil)
-//@   loop 1 invariant -1 <= rangeindex && rangeindex < len(segments) && p != nil && p.Meta != nil
-//@   loop 1 invariant forall k int :: 0 <= k && k < len(path) ==> path[k] != nil && path[k].Meta != nil && (len(path[k].Key) > 0 ==> dyn(path[k].Meta) == *meta.List)
+//@   requires solid(m)
+//@   assigns nothing
+//@   loop 1 invariant -1 <= rangeindex && rangeindex < len(segments) && p != nil && solid(p.Meta)
+//@   loop 1 invariant forall k int :: 0 <= k && k < len(path) ==> path[k] != nil && solid(path[k].Meta) && (len(path[k].Key) > 0 ==> dyn(path[k].Meta) == *meta.List)
+//@   loop 1 invariant fresh(path)
 //@   loop 1 decreases len(segments) - rangeindex
 //@   loop 2 invariant -1 <= rangeindex$2
 //@   loop 2 invariant rangeindex$2 < len(keyStrs)
-//@   loop 2 invariant p != nil && p.Meta != nil
+//@   loop 2 invariant p != nil && solid(p.Meta)
 //@   loop 2 decreases len(keyStrs) - rangeindex$2
 //@   callsite Split: arg1 == "," ==> arg0 === segment[equalsMark+1:]
 //@   callsite Split: arg1 == "/" ==> arg0 === pathStr
-//@   ensures result1 == nil ==> (forall k int :: 0 <= k && k < len(result0) ==> result0[k] != nil && result0[k].Meta != nil && (len(result0[k].Key) > 0 ==> dyn(result0[k].Meta) == *meta.List))
+//@   ensures result1 == nil ==> (forall k int :: 0 <= k && k < len(result0) ==> result0[k] != nil && solid(result0[k].Meta) && (len(result0[k].Key) > 0 ==> dyn(result0[k].Meta) == *meta.List))
 
 // ---- C12: the edit protocol seen by node implementations (ghost bookkeeping) ---------------------------------
 // open:     BeginEdit calls that returned nil, minus EndEdit calls
@@ -720,12 +721,14 @@ package node
 //@   property C08 C13
 //@   requires wfS(sel) && !failed
 //@   requires forall k int :: 0 <= k && k < len(segs) ==> segs[k] != nil && solid(segs[k].Meta) && (len(segs[k].Key) > 0 ==> dyn(segs[k].Meta) == *meta.List)
-//@   loop 1 invariant 0 <= i && i <= len(segs) && wfS(p) && tail != nil
+//@   assigns open, failed, nodeWrites, writesAfterFail, nonNavChecks, sel.Constraints.compiled
+//@   loop 1 invariant 0 <= i && i <= len(segs) && wfS(p) && tail != nil && p.Constraints == sel.Constraints
 //@   loop 1 invariant forall k int :: 0 <= k && k < len(segs) ==> segs[k] != nil && solid(segs[k].Meta) && (len(segs[k].Key) > 0 ==> dyn(segs[k].Meta) == *meta.List)
 //@   loop 1 invariant nodeWrites == old(nodeWrites) && nonNavChecks == old(nonNavChecks) && open == old(open) && !failed
 //@   loop 1 decreases len(segs) - i
 //@   ensures nodeWrites == old(nodeWrites) && nonNavChecks == old(nonNavChecks) && open == old(open)
 //@   ensures failed ==> result1 != nil
+//@   ensures result0 != nil ==> result1 == nil && wfS(result0)
 
 // ---- C09: switching the case of a choice ---------------------------------------------------------------------
 // caseClears counts how often the data of a previously selected case was cleared
@@ -752,9 +755,39 @@ package node
 // the schema lookup, the conversion of the literal and the read of the leaf are abstracted (deterministic, no writes);
 // what is verified is the comparison itself: exact for every ordered scalar type, false for an unset leaf, an error
 // (never a crash) for an unknown operator or incomparable values
-//@ func (sel *Selection) Find(path string) (*Selection, error)
+// Find: the leading "../" steps are walked on the selection chain, the rest of the path (without its query) is parsed
+// against the schema of the selection they reach, and the walk starts from a private copy of that selection
+//@ macro parentOrNil(t *Selection) *Selection = t == nil ? t : t.parent
+//@ pure ancN(s *Selection, n int) *Selection = n <= 0 ? s : parentOrNil(ancN(s, n - 1))
+//@ pure wfSChain(s *Selection) bool = s == nil || (wfS(s) && solid(s.Path.Meta) && wfSChain(s.parent))
+//@ func (sel *Selection) makeCopy() (*Selection, error)
 //@   trusted
-//@   assigns open, failed, nodeWrites, writesAfterFail, fieldWrites, fieldPostChecks, nonNavChecks, sel.Constraints.compiled
+//@   requires sel != nil
+//@   assigns nothing
+//@   ensures (result0 != nil) == (result1 == nil)
+//@   ensures result0 != nil ==> fresh(result0) && result0.Node == sel.Node && result0.Path == sel.Path && result0.Browser == sel.Browser && result0.Constraints == sel.Constraints
+// the standard URL parser is only used to decode the query part; it touches nothing of ours
+//@ extern net/url.Parse(rawURL string) (*url.URL, error)
+//@   assigns nothing
+//@   ensures (result0 != nil) == (result1 == nil)
+//@ extern net/url.(*URL).Query() url.Values
+//@   assigns nothing
+//@ func BuildConstraints(sel *Selection, params map[string][]string) error
+//@   trusted
+//@   requires sel != nil
+//@   assigns sel.Constraints
+//@   ensures result == nil ==> sel.Constraints != nil
+//@ func (sel *Selection) Find(path string) (*Selection, error)
+//@   mode int
+//@   property C08 C13
+//@   requires wfSChain(sel) && sel != nil && !failed && solid(sel.Path.Meta)
+//@   assigns open, failed, nodeWrites, writesAfterFail, fieldWrites, fieldPostChecks, nonNavChecks, Constraints.compiled
+//@   loop 1 invariant len(p) <= len(path) && (len(path) - len(p)) % 3 == 0 && p === path[len(path)-len(p):]
+//@   loop 1 invariant s != nil && s == ancN(sel, (len(path) - len(p)) / 3) && wfSChain(s)
+//@   loop 1 decreases len(p)
+//@   callsite makeCopy: recv == ancN(sel, (len(path) - len(p)) / 3)
+//@   callsite parseUrlPath: arg0 === p && arg1 == s.Path.Meta
+//@   callsite findSlice: recv == s
 //@   ensures nodeWrites == old(nodeWrites) && open == old(open)
 //@   ensures result0 != nil ==> result1 == nil && wfS(result0)
 //@ func (sel *Selection) Get() (val.Value, error)
